@@ -273,6 +273,22 @@ class WH(NAHooks):
                 return as_dt(args[0]).d.kind in 'biuf'
             if f.name == 'is_numeric_dtype':
                 return as_dt(args[0]).d.kind in 'biufc'
+        if isinstance(f, ModuleV) and f.name.endswith('get_blas_funcs') \
+                and args[0] in ('dot', 'dotu', 'dotc'):
+            # level-1 BLAS: dot / dotu = sum x_i y_i, dotc = sum conj(x_i)
+            # y_i (the FIRST argument is conjugated)
+            kind = args[0]
+
+            def bdot(x, y, **k):
+                xa, ya = na_of(x).a.ravel(), na_of(y).a.ravel()
+                if len(xa) != len(ya):
+                    raise PyRaise('ValueError')
+                tot = Rat.const(0)
+                for p_, q_ in zip(xa, ya):
+                    p_, q_ = to_rat(p_), to_rat(q_)
+                    tot = tot + (PA.conj(p_) if kind == 'dotc' else p_) * q_
+                return PA.ired(tot)
+            return Builtin(kind, bdot)
         if isinstance(f, ModuleV) and f.name.endswith('get_blas_funcs'):
             if args[0] != 'nrm2':
                 raise Undecided('BLAS function %r' % (args[0],))
@@ -602,6 +618,12 @@ def tensor_rules(rep, model, thorough):
                         variants.append((True, False))     # BLAS nrm2
                     if p == 2 and field == 'R':
                         variants.append((False, True))     # tensordot arm
+                    if p == 2:
+                        # beyond the size thresholds with arrays the BLAS
+                        # guard admits
+                        variants.append((True, True))
+                        if field == 'C':
+                            variants.append((False, True))
                     for blas, big in variants:
                         tag = '%s[p=%s,%s,%s%s%s]' % (
                             kind, pname(p), field, layout,
